@@ -33,7 +33,7 @@ def gen_policy(rng, sim, maxdepth=2, p_star=0.08, p_bad=0.04):
 
 
 DEFAULT_W = dict(add_dim=4, del_dim=2, add_attr=8, del_attr=5, rename=3, disable=4, upd=10, mpk=2, rekey=8, prune=4,
-                 keygen=10, refresh=10, encaps=12, recaps=3, decaps=15, rt=4, snap=1, restore=1)
+                 keygen=10, refresh=10, encaps=12, recaps=3, decaps=15, rt=4, snap=1, restore=1, rfbad=2)
 
 
 def gen_history(rng, w=None, nsteps=(8, 45), final_pairs=True, names_extra=('e', 'f'), multibyte=False):
@@ -88,6 +88,7 @@ def gen_history(rng, w=None, nsteps=(8, 45), final_pairs=True, names_extra=('e',
             j = rng.randrange(sim.nmpk) if rng.random() < 0.3 else sim.nmpk - 1
             out.append(f'RC {j} {rng.randrange(sim.nenc)}'); sim.nenc += 1
         elif op == 'decaps' and sim.nusk and sim.nenc: out.append(f'DE {rng.randrange(sim.nusk)} {rng.randrange(sim.nenc)}')
+        elif op == 'rfbad' and sim.nusk: out.append(f"RFBAD {rng.randrange(sim.nusk)} {rng.choice('01')}")
         elif op == 'snap': out.append('SNAP'); sim.nsnap = getattr(sim, 'nsnap', 0) + 1
         elif op == 'restore' and getattr(sim, 'nsnap', 0): out.append(f'REST {rng.randrange(sim.nsnap)}')
         elif op == 'rt':
@@ -216,7 +217,7 @@ def generic_oracles(script, out):
         msk = parts[1] if len(parts) > 1 else None
         if ob == 'ERR' and last_msk is not None and msk != last_msk:
             v.append((ln, 'C10', 'master key changed by a failed call'))
-        if f[0] == 'RF' and ob == 'ERR' and len(parts) > 2 and nusk:
+        if f[0] in ('RF', 'RFBAD') and ob == 'ERR' and len(parts) > 2 and nusk:
             k = int(f[1]) % nusk
             if k in last_usk and last_usk[k] != parts[2]: v.append((ln, 'C10', 'user key changed by a failed refresh'))
         if f[0] == 'KG' and ob == 'OK': last_usk[nusk] = parts[2]; nusk += 1
